@@ -117,10 +117,17 @@ class IdleReleaseExternalRunAdapter(BaseExternalRunAdapterDecorator):
         # The inherited cancel() goes straight to the inner adapter. A released run
         # has no live inner run that could receive the cancellation (the handler
         # would stay "running" for ever), so bring it back first.
+        # An idle run that is still in memory stops being idle with the cancellation,
+        # exactly as with any other event: clear the idle marker under the lock, or a
+        # release timer that fires now aborts the run with the cancellation pending.
         async with self._runtime._reload_lock(self.run_id):
             if self.run_id not in self._runtime._active_run_ids:
                 await self._runtime._ensure_active_run_locked(self.run_id)
-        await self._decorated.cancel()
+            else:
+                await self._runtime._store.update_handler_status(
+                    self.run_id, idle_since=None
+                )
+            await self._decorated.cancel()
 
 
 class IdleReleaseDecorator(BaseRuntimeDecorator):
